@@ -844,16 +844,9 @@ func (c *c03) versionGating() {
 		if fi == nil {
 			continue
 		}
-		ok := false
-		if len(fi.Decl.Body.List) == 1 {
-			if ret, ok2 := fi.Decl.Body.List[0].(*ast.ReturnStmt); ok2 && len(ret.Results) == 1 {
-				if be, ok3 := unparen(ret.Results[0]).(*ast.BinaryExpr); ok3 && be.Op == token.GEQ {
-					if v, ok4 := constInt(info, be.Y); ok4 && v == want {
-						ok = true
-					}
-				}
-			}
-		}
+		// "v >= N", written directly or through an expression function and a fixed table
+		got, okT := r.L.thresholdOf(fi)
+		ok := okT && got == want
 		r.check(ok, "r4", nm+" threshold", fi.Decl.Pos(), fmt.Sprintf("v >= %d", want), fmt.Sprintf("%s is not 'v >= %d': an extension message would be sent to (or withheld from) the wrong versions", nm, want))
 	}
 	// every extension literal in client code is gated
